@@ -487,6 +487,7 @@ func c19KeysRun(out *c19Out, raw []byte) {
 	ref := make([][]c19KeyOpRes, len(c.Progs))
 	for g, prog := range c.Progs {
 		for o, op := range prog {
+			c19Beat()
 			ref[g] = append(ref[g], w.runOp(context.Background(), refRing, refF, g, o, op))
 		}
 	}
